@@ -24,6 +24,7 @@ sys.path.insert(1, os.path.join(VERIF, "tools"))
 os.environ.setdefault("MO_SQL_PARSING_VERIF", "1")
 
 import ref  # noqa: E402
+import extract_effects  # noqa: E402
 
 
 def lean_str(s):
@@ -416,6 +417,55 @@ def walk_graph(root):
     return list(seen.values())
 
 
+def node_label(e):
+    n = str(getattr(e, "parser_name", "") or "")
+    if n:
+        return n
+    cfg = getattr(e, "parser_config", None)
+    mt = getattr(cfg, "match", None) if cfg is not None else None
+    if isinstance(mt, str) and mt:
+        return mt.lower()
+    return ""
+
+
+def ws_census(root):
+    """every sequencing node (And / Many family) with its whitespace engine kind and a stable key"""
+    parents = {}
+    seen = {}
+    stack = [(root, None)]
+    while stack:
+        e, par = stack.pop()
+        if e is None:
+            continue
+        if id(e) in seen:
+            continue
+        seen[id(e)] = e
+        parents[id(e)] = par
+        x = getattr(e, "expr", None)
+        if x is not None and hasattr(x, "parser_config"):
+            stack.append((x, e))
+        for y in getattr(e, "exprs", None) or []:
+            stack.append((y, e))
+    out = []
+    for e in seen.values():
+        cfg = getattr(e, "parser_config", None)
+        ws = getattr(cfg, "whitespace", None) if cfg is not None else None
+        if ws is None or not hasattr(ws, "white_chars"):
+            continue
+        kids = list(getattr(e, "exprs", None) or ([e.expr] if getattr(e, "expr", None) is not None else []))
+        if type(e).__name__ == "And" and len(kids) < 2:
+            continue
+        kind = "none" if not ws.white_chars else ("comment" if ws.ignore_list else "standard")
+        label = node_label(e)
+        if not label:
+            sig = "+".join((node_label(k) or type(k).__name__) for k in kids[:4])
+            par = parents.get(id(e))
+            up = node_label(par) if par is not None else ""
+            label = (up + ":" if up else "") + type(e).__name__ + "(" + sig + ")"
+        out.append((kind, label))
+    return out
+
+
 def extract_graph(X, builds):
     """census of the grammar graph of the common parser: keyword words, parse actions"""
     import mo_sql_parsing.utils as U
@@ -439,6 +489,61 @@ def extract_graph(X, builds):
                 fn = getattr(pa, "__wrapped__", pa)
                 nm = getattr(fn, "__name__", None) or getattr(getattr(pa, "action", None), "__name__", None) or type(pa).__name__
                 actions[nm] = actions.get(nm, 0) + 1
+    # ---- structural difference between the dialect graphs (C18): multiset of node signatures, relative to common
+    import collections
+
+    def node_sig(e):
+        cfg = e.parser_config
+        mt = getattr(cfg, "match", None)
+        rx = getattr(cfg, "regex", None)
+        if rx is None or not hasattr(rx, "pattern"):
+            rx = getattr(e, "regex", None)
+        pat = rx.pattern if rx is not None and hasattr(rx, "pattern") else ""
+        acts = []
+        for pa in getattr(e, "parse_action", None) or []:
+            fn = getattr(pa, "__wrapped__", pa)
+            acts.append(getattr(fn, "__name__", None) or getattr(getattr(pa, "action", None), "__name__", None) or type(pa).__name__)
+        return "%s|%s|%s|%s|%s" % (type(e).__name__, str(getattr(e, "parser_name", "") or "")[:40], mt if isinstance(mt, str) else "",
+                                   pat[:80], ",".join(acts))
+
+    sigs = {}
+    for (name, ac), parser in builds.items():
+        sigs[(name, ac)] = collections.Counter(node_sig(e) for e in walk_graph(parser.element))
+    diff = []
+    for (name, ac), c in sorted(sigs.items(), key=str):
+        base = sigs.get(("common_parser", ac))
+        if base is None or name == "common_parser":
+            continue
+        for k, v in sorted((c - base).items()):
+            diff.append("%s/%s +%d %s" % (name, ac, v, k))
+        for k, v in sorted((base - c).items()):
+            diff.append("%s/%s -%d %s" % (name, ac, v, k))
+    X.data["dialect_diff"] = diff
+    ws_kinds = {}
+    offending = set()
+    case_sensitive = set()
+    engines = set()
+    for (name, ac), parser in builds.items():
+        for kind, label in ws_census(parser.element):
+            ws_kinds[kind] = ws_kinds.get(kind, 0) + 1
+            if kind == "standard":
+                offending.add(label)
+        for e in walk_graph(parser.element):
+            cfg = getattr(e, "parser_config", None)
+            ws = getattr(cfg, "whitespace", None) if cfg is not None else None
+            if ws is not None and hasattr(ws, "white_chars") and getattr(ws, "regex", None) is not None:
+                kind = "none" if not ws.white_chars else ("comment" if ws.ignore_list else "standard")
+                engines.add((kind, ws.regex.pattern, str(int(ws.regex.flags))))
+            tn = type(e).__name__
+            if tn in ("Keyword", "Literal"):
+                # CaselessKeyword / CaselessLiteral are separate classes; these two compare exactly
+                mt = getattr(e.parser_config, "match", None)
+                if isinstance(mt, str) and any(ch.isalpha() for ch in mt):
+                    case_sensitive.add(mt)
+    X.data["ws_engines"] = sorted(engines)
+    X.data["ws_kinds"] = ws_kinds
+    X.data["ws_offending"] = sorted(offending)
+    X.data["case_sensitive_keywords"] = sorted(case_sensitive)
     X.data["keyword_words"] = sorted(words)
     X.data["graph_sizes"] = sizes
     X.data["parse_actions"] = actions
@@ -450,6 +555,37 @@ def extract_graph(X, builds):
         except Exception:
             pass
     X.data["reserved_words"] = reserved
+
+
+def known_covers(prop, key):
+    for f in load_known():
+        if f["property"] == prop and f["key"] == key:
+            return list(f.get("covers", []))
+    return []
+
+
+def gen_graph_lean(X):
+    def lst(name, doc, items):
+        return ["/-- %s -/" % doc, "def %s : List String := [%s]" % (name, ", ".join(lean_str(i) for i in items)), ""]
+
+    lines = ["/- GENERATED by tools/extract.py from /repo's working tree — do not edit. -/", "namespace MoSql.Gen", ""]
+    lines += lst("wsOffending", "sequencing nodes of the grammar graphs (all 8 parsers) whose whitespace engine skips NO comments",
+                 X.data.get("ws_offending", []))
+    lines += lst("caseSensitiveKeywords", "keyword terminals with letters that are matched case-sensitively",
+                 X.data.get("case_sensitive_keywords", []))
+    lines += lst("knownWsNodes", "listed in known_findings.json (C09 ws:nodes-without-comment-skipping)",
+                 known_covers("C09", "ws:nodes-without-comment-skipping"))
+    lines += lst("knownCaseKeywords", "listed in known_findings.json (C09 case:case-sensitive-keywords)",
+                 known_covers("C09", "case:case-sensitive-keywords"))
+    lines += ["/-- the whitespace engines found in the graphs: (kind, regular expression, flags) -/",
+              "def wsEngines : List (String × String × String) := [%s]" % ", ".join(
+                  "(%s, %s, %s)" % (lean_str(k), lean_str(p), lean_str(f)) for k, p, f in X.data.get("ws_engines", [])), ""]
+    lines += lst("dialectDiff", "node signatures (type|name|match|regex|actions) by which each dialect's grammar graph differs from the common one",
+                 X.data.get("dialect_diff", []))
+    lines += lst("parseActions", "names of all parse actions attached anywhere in the grammar graphs",
+                 sorted(X.data.get("parse_actions", {})))
+    lines += ["end MoSql.Gen"]
+    return "\n".join(lines) + "\n"
 
 
 def gen_lexemes_lean(X):
@@ -498,6 +634,7 @@ def main():
     extract_formatter(X)
     extract_lexemes(X)
     extract_graph(X, builds)
+    extract_effects.extract(X, REPO)
 
     changed = []
     gen_dir = os.path.join(VERIF, "lean", "MoSql", "Gen")
@@ -507,6 +644,10 @@ def main():
         changed.append("FmtTable.lean")
     if write_if_changed(os.path.join(gen_dir, "Lexemes.lean"), gen_lexemes_lean(X)):
         changed.append("Lexemes.lean")
+    if write_if_changed(os.path.join(gen_dir, "Graph.lean"), gen_graph_lean(X)):
+        changed.append("Graph.lean")
+    if write_if_changed(os.path.join(gen_dir, "Effects.lean"), extract_effects.gen_lean(X, lean_str)):
+        changed.append("Effects.lean")
     X.data["problems"] = X.problems
     write_if_changed(os.path.join(VERIF, "build", "gen.json"), json.dumps(X.data, indent=1, sort_keys=True, default=str))
     print(json.dumps({"changed": changed, "problems": X.problems}))
